@@ -487,6 +487,7 @@ def _call_args(pos, **kw):
 def _emit_items(items, ind, method, out):
     pad = "    " * ind
     for it in items:
+        start = len(out)
         if it["k"] == "test":
             out.append("%s@lcc.test(%s)" % (pad, _call_args(it["desc"], name=it["name"])))
         else:
@@ -533,11 +534,33 @@ def _emit_items(items, ind, method, out):
             out.append("%sdef %s(%s):" % (pad, it["attr"], ", ".join(args)))
             out.append("%s    pass" % pad)
         else:
-            out.append("%sclass %s:" % (pad, it["attr"]))
-            if it["body"]:
-                _emit_items(it["body"], ind + 1, True, out)
+            import zlib
+            nested = [x for x in it["body"] if x["k"] != "test"]
+            distinct = len(set(x["attr"] for x in it["body"])) == len(it["body"])      # no shadowing inside the class body
+            # (the decorators number what they decorate in the order they run: the base class is written first, so only bodies
+            #  whose sub-suite classes all come before their tests are written this way)
+            kinds = [x["k"] == "test" for x in it["body"]]
+            classes_first = kinds == sorted(kinds)
+            if ind == 0 and nested and distinct and classes_first and zlib.crc32(("inherit/%s" % it["attr"]).encode()) % 2 == 0:
+                # the same suite written with its sub-suite classes INHERITED from a plain base class (a mixin shared by several
+                # suites is written like this): the loader looks at the attributes of the instance, inherited ones included
+                base = []
+                base.append("%sclass _Base_%s:" % (pad, it["attr"]))
+                _emit_items(nested, ind + 1, True, base)
+                base.append("")
+                out[start:start] = base
+                out.append("%sclass %s(_Base_%s):" % (pad, it["attr"], it["attr"]))
+                rest = [x for x in it["body"] if x["k"] == "test"]
+                if rest:
+                    _emit_items(rest, ind + 1, True, out)
+                else:
+                    out.append("%s    pass" % pad)
             else:
-                out.append("%s    pass" % pad)
+                out.append("%sclass %s:" % (pad, it["attr"]))
+                if it["body"]:
+                    _emit_items(it["body"], ind + 1, True, out)
+                else:
+                    out.append("%s    pass" % pad)
         out.append("")
 
 
